@@ -1814,8 +1814,15 @@ func c19Hidden(c c19HiddenCase, v *vlib.Verdict, future []byte) (mach string) {
 
 	case "delayed":
 		setMode("hold")
+		began := time.Now()
 		cl := newClient(vCliAddr, c19HiddenClientConfig(c.Target, false))
 		c19Handshake(cl, time.Duration(c.DelayMs)*time.Millisecond+2*time.Second)
+		// the client may give up (its own handshake timeout) before the held request is released: the verdict below is
+		// about what the server does with the request, so wait until it has certainly been delivered (a delay equal to the
+		// client's timeout plus the settle time once put the response into the NEXT probe's observation window)
+		if rem := time.Duration(c.DelayMs)*time.Millisecond + 50*time.Millisecond - time.Since(began); rem > 0 {
+			time.Sleep(rem)
+		}
 		c19Settle()
 		switch {
 		case c.DelayMs >= window+1000:
